@@ -51,6 +51,13 @@ package container
 //@   calls Queue.fetchAll#2: requires e1 == nil && len($0.Filters) == 2 && $0.Filters[0].Attr == "state" && $0.Filters[0].Operator == "=" && $0.Filters[0].Operand == iface(arvados.ContainerStateQueued) && $0.Filters[1].Attr == "priority" && $0.Filters[1].Operator == ">" && $0.Filters[1].Operand == iface("0")
 //@   calls Queue.fetchAll#2: set e2 = $r1
 //@   calls Queue.fetchAll#3: set e3 = $r1
+//@   # every field the dispatcher decides from is requested: identity, state and
+//@   # priority for the scheduler; constraints, image, mounts and scheduling
+//@   # parameters for the choice of the instance type; creation time for metrics
+//@   at assign selectParam#1: assert len(selectParam) == 8 && selectParam[0] == "uuid" && selectParam[1] == "state" && selectParam[2] == "priority" && selectParam[3] == "runtime_constraints" && selectParam[4] == "container_image" && selectParam[5] == "mounts" && selectParam[6] == "scheduling_parameters" && selectParam[7] == "created_at"
+//@   calls Queue.fetchAll#1: requires $0.Select == selectParam
+//@   calls Queue.fetchAll#2: requires $0.Select == selectParam
+//@   calls Queue.fetchAll#3: requires $0.Select == selectParam
 //@   calls apply#1: requires e1 == nil && $0 == mine
 //@   calls apply#2: requires e2 == nil && $0 == avail
 //@   calls apply#3: requires e3 == nil && $0 == ended
